@@ -62,18 +62,23 @@ theorem ginv_step {cfg : Cfg} {s s' : State} (a : Action) (hI : GInv cfg s)
     split at h <;> try contradiction
     simp only [Option.some.injEq] at h; subst h
     exact ginv_globals hI rfl rfl rfl (Or.inl rfl) hI.poolInv
+  | pGive =>
+    simp only [step] at h
+    split at h <;> try contradiction
+    rename_i n q c i hp hh
+    split at h <;> try contradiction
+    cases hu : updConn s c (cHand i) with
+    | none => rw [hu] at h; contradiction
+    | some s1 =>
+      rw [hu] at h
+      simp only [Option.map_some, Option.some.injEq] at h; subst h
+      have h1 := ginv_updConn (good_cHand i) (Or.inl (stay_cHand i)) hI hu
+      exact ginv_globals h1 rfl rfl rfl (Or.inl rfl) h1.poolInv
   | start c i =>
     simp only [step] at h
     split at h
+    · exact ginv_updConn (good_cStartP i) (Or.inl (stay_cStartP i)) hI h
     · exact ginv_updConn (good_cStart i) (Or.inl (stay_cStart i)) hI h
-    · split at h <;> try contradiction
-      cases hu : updConn s c (cStart i) with
-      | none => rw [hu] at h; contradiction
-      | some s1 =>
-        rw [hu] at h
-        simp only [Option.map_some, Option.some.injEq] at h; subst h
-        have h1 := ginv_updConn (good_cStart i) (Or.inl (stay_cStart i)) hI hu
-        exact ginv_globals h1 rfl rfl rfl (Or.inl rfl) h1.poolInv
   | fin c i => exact ginv_updConn (good_cFin i) (Or.inl (stay_cFin i)) hI h
   | write c i => exact ginv_updConn (good_cWrite i) (Or.inl (stay_cWrite i)) hI h
   | dec c i => exact ginv_updConn (good_cDec i) (Or.inl (stay_cDec i)) hI h
